@@ -300,6 +300,7 @@ def run(chk: core.Check, pid: str):
     for ls in core.parallel(_record, seeds, {"maxobj": 20 if quick else 40, "pairs": 6}):
         lines.extend(ls)
     rej = trace_validate(chk, lines)
+    core.canary(chk, lines, trace_validate, what="Trace_Content", skip=set(rej))
     mine = {i for i, cl in rej.items() if pid in cl}
     chk.traces_accepted += len(lines) - len(mine)
     chk.evaluations += len(lines)
